@@ -284,15 +284,15 @@ def rule_routing(chk, prog, tier, C):
     forms = []
     # preprocessor options, probed with -E x.c
     for o in (['-DX'], ['-D', 'X=1'], ['-UX'], ['-U', 'X'], ['-Iinc'], ['-I', 'inc'], ['-include', 'f.h'], ['-idirafter', 'd'], ['-isystem', 'd'],
-              ['-iquote', 'd'], ['-nostdinc'], ['-std=c11'], ['-P'], ['-MD'], ['-MMD'], ['-MT', 't'], ['-MF', 'f'], ['-Wp,-a,-b'], ['-Wp,-a'],
+              ['-iquote', 'd'], ['-nostdinc'], ['-std=c11'], ['-P'], ['-MD'], ['-MMD'], ['-MT', 't'], ['-MF', 'f'], ['-Wp,-a,-b'], ['-Wp,-a'], ['-Wp,-MD,'], ['-Wp,,-x'],      # empty list elements are passed on as empty arguments
               ['-M'], ['-MM'], ['-DA', '-UB', '-IC', '-DD'], ['-Wp,-x', '-DY', '-Wp,-z']):
         forms.append(o + ['-E', 'x.c'])
         forms.append(o + ['x.c'])
     # assembler options, probed with -c x.s / x.c
-    for o in (['-Wa,-a,-b'], ['-Wa,--x'], ['-Wa,-q', '-Wa,-r']):
+    for o in (['-Wa,-a,-b'], ['-Wa,--x'], ['-Wa,-q', '-Wa,-r'], ['-Wa,,--noexecstack'], ['-Wa,']):
         forms.append(o + ['-c', 'x.s']); forms.append(o + ['-c', 'x.c']); forms.append(o + ['x.S'])
     # linker options
-    for o in (['-Ld'], ['-L', 'd'], ['-s'], ['-static'], ['-Wl,-a,-b'], ['-Wl,--gc-sections'], ['-nostdlib'], ['-pthread'], ['-lm'], ['-l', 'm'],
+    for o in (['-Ld'], ['-L', 'd'], ['-s'], ['-static'], ['-Wl,-a,-b'], ['-Wl,--gc-sections'], ['-Wl,-rpath,,-z,now'], ['-Wl,'], ['-Wl,-a,'], ['-nostdlib'], ['-pthread'], ['-lm'], ['-l', 'm'],
               ['-Ld1', '-static', '-Wl,-z', '-L', 'd2', '-s']):
         forms.append(o + ['x.o']); forms.append(['x.o'] + o + ['y.o']); forms.append(o + ['x.c'])
     forms.append(['a.o', '-lm', 'b.o', '-l', 'c', 'd.o']); forms.append(['a.o', '-pthread', 'b.o'])
